@@ -1,4 +1,4 @@
-import GmqttVerif.Model.RedisStores
+import GmqttVerif.Model.RedisDecoded
 import GmqttVerif.Proofs.Redis
 import GmqttVerif.Proofs.ElemCodec
 /-
@@ -13,119 +13,13 @@ import GmqttVerif.Proofs.ElemCodec
 namespace GmqttVerif.RedisStores
 open GmqttVerif.Codec GmqttVerif.Redis GmqttVerif.ElemCodec
 
-/-! ### keys -/
-
-inductive Fam
-  | sess | sub | queue | unack
-  deriving DecidableEq, Repr
-
-def keyOf : Fam → Bytes → Bytes
-  | .sess, c => sessKey c
-  | .sub, c => subKey c
-  | .queue, c => queueKey c
-  | .unack, c => unackKey c
-
 theorem keyOf_inj {f f' : Fam} {c c' : Bytes} (h : keyOf f c = keyOf f' c') : f = f' ∧ c = c' := by
   cases f <;> cases f' <;>
     simp [keyOf, sessKey, subKey, queueKey, unackKey, sessPrefix, subPrefix, queuePrefix, unackPrefix] at h ⊢ <;>
     first | exact h | omega
 
-/-! ### the decoded store -/
-
-/-- decoded contents of the four keys of one client id -/
-structure DClient where
-  sess : List (Bytes × Bytes) := []          -- the hash `session:<id>` as stored
-  subs : List (Bytes × Subscription) := []   -- `sub:<id>`: field (full topic name) ↦ subscription
-  queue : List Elem := []                    -- `queue:<id>`
-  unack : List Nat := []                     -- `unack:<id>`: packet ids
-  deriving Inhabited
-
-abbrev DStore := Bytes → DClient
-
-def DStore.empty : DStore := fun _ => {}
-
-/-- the commands the persistence layer issues, with decoded payloads -/
-inductive DCmd
-  | delKey (f : Fam) (c : Bytes)
-  | setSess (c : Bytes) (fvs : List (Bytes × Bytes))
-  | setSub (c : Bytes) (s : Subscription)
-  | delSubs (c : Bytes) (fs : List Bytes)
-  | push (c : Bytes) (e : Elem)
-  | lset (c : Bytes) (i : Nat) (e : Elem)
-  | lrem1 (c : Bytes) (e : Elem)
-  | setUnack (c : Bytes) (id : Nat)
-  | delUnack (c : Bytes) (id : Nat)
-
-/-- the redis command actually sent -/
-def DCmd.enc : DCmd → Cmd
-  | .delKey f c => .del (keyOf f c)
-  | .setSess c fvs => .hset (sessKey c) fvs
-  | .setSub c s => .hset (subKey c) [(fullTopicName s, encodeSubscription s)]
-  | .delSubs c fs => .hdel (subKey c) fs
-  | .push c e => .rpush (queueKey c) (encodeElem e)
-  | .lset c i e => .lset (queueKey c) (i : Int) (encodeElem e)
-  | .lrem1 c e => .lrem (queueKey c) 1 (encodeElem e)
-  | .setUnack c id => .hset (unackKey c) [(natToDec id, [49])]
-  | .delUnack c id => .hdel (unackKey c) [natToDec id]
-
-def DCmd.fam : DCmd → Fam
-  | .delKey f _ => f
-  | .setSess _ _ => .sess
-  | .setSub _ _ | .delSubs _ _ => .sub
-  | .push _ _ | .lset _ _ _ | .lrem1 _ _ => .queue
-  | .setUnack _ _ | .delUnack _ _ => .unack
-
-def DCmd.cid : DCmd → Bytes
-  | .delKey _ c | .setSess c _ | .setSub c _ | .delSubs c _ | .push c _ | .lset c _ _ | .lrem1 c _ | .setUnack c _ | .delUnack c _ => c
-
 theorem DCmd.enc_key (d : DCmd) : d.enc.key = keyOf d.fam d.cid := by
   cases d <;> rfl
-
-def upsert {α : Type} (l : List (Bytes × α)) (f : Bytes) (v : α) : List (Bytes × α) :=
-  match l with
-  | [] => [(f, v)]
-  | (f', v') :: rest => if f' = f then (f, v) :: rest else (f', v') :: upsert rest f v
-
-def eraseField {α : Type} (l : List (Bytes × α)) (f : Bytes) : List (Bytes × α) :=
-  match l with
-  | [] => []
-  | (f', v') :: rest => if f' = f then rest else (f', v') :: eraseField rest f
-
-def eraseFields {α : Type} (l : List (Bytes × α)) : List Bytes → List (Bytes × α)
-  | [] => l
-  | f :: fs => eraseFields (eraseField l f) fs
-
-def upsertMany (l : List (Bytes × Bytes)) : List (Bytes × Bytes) → List (Bytes × Bytes)
-  | [] => l
-  | (f, v) :: more => upsertMany (upsert l f v) more
-
-/-- effect of a command on the component it addresses -/
-def DClient.step (d : DClient) : DCmd → DClient
-  | .delKey .sess _ => { d with sess := [] }
-  | .delKey .sub _ => { d with subs := [] }
-  | .delKey .queue _ => { d with queue := [] }
-  | .delKey .unack _ => { d with unack := [] }
-  | .setSess _ fvs => { d with sess := upsertMany d.sess fvs }
-  | .setSub _ s => { d with subs := upsert d.subs (fullTopicName s) s }
-  | .delSubs _ fs => { d with subs := eraseFields d.subs fs }
-  | .push _ e => { d with queue := d.queue ++ [e] }
-  | .lset _ i e => { d with queue := d.queue.set i e }
-  | .lrem1 _ e => { d with queue := d.queue.erase e }
-  | .setUnack _ id => { d with unack := if id ∈ d.unack then d.unack else d.unack ++ [id] }
-  | .delUnack _ id => { d with unack := d.unack.erase id }
-
-def dexec (g : DStore) (d : DCmd) : DStore :=
-  fun c => if c = d.cid then (g c).step d else g c
-
-def dfold (g : DStore) : List DCmd → DStore
-  | [] => g
-  | d :: ds => dfold (dexec g d) ds
-
-/-! ### raw form of the decoded store -/
-
-def encSubs (l : List (Bytes × Subscription)) : List (Bytes × Bytes) := l.map (fun p => (p.1, encodeSubscription p.2))
-def encQueue (l : List Elem) : List Bytes := l.map encodeElem
-def encUnack (l : List Nat) : List (Bytes × Bytes) := l.map (fun id => (natToDec id, [49]))
 
 /-- the value redis must hold under `keyOf f c` (an empty hash / list = no key) -/
 def expect (g : DStore) : Fam → Bytes → Val
